@@ -10,11 +10,12 @@ import time
 PROPS = ['C10', 'C11', 'C15', 'C17', 'C18', 'C19']
 
 
-def digests(pid, seed, runs, workers, tier):
+def digests(pid, seed, runs, workers, tier, roundtrip=False):
     from sim import core
     out = {}
+    fn = core._worker_run_roundtrip if roundtrip else core._worker_run
     with core.make_pool(workers) as pool:
-        futs = {pool.submit(core._worker_run, (pid, seed, r, tier, False)): r for r in runs}
+        futs = {pool.submit(fn, (pid, seed, r, tier, False)): r for r in runs}
         for f, r in futs.items():
             res = f.result(timeout=core.RUN_TIMEOUT_S * 4)
             out[r] = res['digest'] if not res['harness_error'] else 'HARNESS:' + res['harness_error'][-200:]
@@ -36,7 +37,7 @@ def main(a):
     for pid in props:
         runs = list(range(k))
         d16 = digests(pid, a.seed, runs, min(a.workers, 16), 'quick')
-        d16b = digests(pid, a.seed, list(reversed(runs)), min(a.workers, 16), 'quick')
+        d16b = digests(pid, a.seed, list(reversed(runs)), min(a.workers, 16), 'quick', roundtrip=True)
         d1 = digests(pid, a.seed, runs[:max(4, k // 4)], 1, 'quick')
         env = dict(os.environ, VERIF_HASHSEED='1', SELFTEST_CHILD=f'{pid}:{k}')
         env.pop('PYTHONHASHSEED', None)
@@ -50,7 +51,7 @@ def main(a):
             if len(vals) != 1 or any(v is None or str(v).startswith('HARNESS') for v in vals):
                 n_bad += 1
                 print(f'NONDETERMINISM {pid} run {r}: {sorted(map(str, vals))}')
-        print(f'[selftest] {pid}: {k} runs x (16 workers, 16 workers reversed order, 1 worker on {len(d1)}, '
+        print(f'[selftest] {pid}: {k} runs x (16 workers, 16 workers reversed order after a sorted-key JSON round trip of the case, 1 worker on {len(d1)}, '
               f'fresh interpreter PYTHONHASHSEED=1): {"OK" if not n_bad else str(n_bad) + " DIVERGED"}', flush=True)
         bad += n_bad
     print(f'[selftest] wall={time.time() - t0:.1f}s')
